@@ -689,6 +689,17 @@ theorem conformsB_iff (es : List Item) (got : List Got) : conformsB es got = tru
       subst hx
       exact ⟨rfl, List.suffix_refl _⟩) ⟨_, List.mem_singleton.mpr rfl, h⟩
 
+theorem diagnose_ne_pass (gid : Nat) (es : List Item) (got : List Got) (v : Verdict) :
+    diagnose gid es got v ≠ .pass := by
+  unfold diagnose
+  cases v with
+  | pass => simp
+  | fail cls g i =>
+    simp only
+    split
+    · split <;> simp
+    · simp
+
 theorem checkProd_sound (gid : Nat) (es : List Item) (got : List Got) (h : checkProd gid es got = .pass) :
     Conforms es got := by
   unfold checkProd at h
@@ -696,7 +707,7 @@ theorem checkProd_sound (gid : Nat) (es : List Item) (got : List Got) (h : check
   · rename_i hg; exact greedyProd_sound gid es got hg
   · split at h
     · rename_i hb; exact (conformsB_iff es got).mp hb
-    · rename_i hv _; exact absurd h (by intro h'; exact hv h')
+    · exact absurd h (diagnose_ne_pass gid es got _)
 
 theorem checkProd_complete (gid : Nat) {es : List Item} {got : List Got} (h : Conforms es got) :
     checkProd gid es got = .pass := by
